@@ -68,40 +68,62 @@ Proof.
   destruct e; try contradiction. destruct H as [<-|[]]. apply entry_safe. assumption.
 Qed.
 
-(* every database file (and temporary) written along ANY history is safe, whatever the
-   documents contain; every audit line is safe as far as values are concerned *)
+(* reopening a file this database wrote, with its own key, gives back the same in-memory
+   crypto state and the document, for one use of the key *)
+Lemma c_open_own kek dek r1 r doc :
+  c_open kek (fst (c_save (fst (c_create kek dek r1)) r doc)) = (Some (fst (c_create kek dek r1), doc), 1).
+Proof. unfold c_open, c_save, c_create, wrapper, open. cbn. rewrite !N.eqb_refl. reflexivity. Qed.
+
+Lemma count_reopens_call ev cl o r h : count_reopens (HCall ev cl o r :: h) = count_reopens h.
+Proof. reflexivity. Qed.
+Lemma count_reopens_reopen h : count_reopens (HReopen :: h) = 1 + count_reopens h.
+Proof. unfold count_reopens. cbn [filter length]. rewrite Nat2N.inj_succ. lia. Qed.
+
+(* every database file (and temporary) written along ANY history - calls and reopens - is safe,
+   whatever the documents contain; every audit line is safe as far as values are concerned;
+   the key-encryption key is used once per reopen and by nothing else *)
 Lemma run_terms_safe kek dek r1 : protected kek -> protected dek ->
-  forall h (s : dbstate N) files audits uses,
-  run_terms (fst (c_create kek dek r1)) s h = (files, audits, uses) ->
-  (forall t, In t files -> safe t) /\ (names_public = true -> forall t, In t audits -> safe t) /\ uses = 0.
+  forall h (s : dbstate N) f files audits uses,
+  (exists r doc, f = fst (c_save (fst (c_create kek dek r1)) r doc)) ->
+  run_terms kek (fst (c_create kek dek r1)) s f h = (files, audits, uses) ->
+  (forall t, In t files -> safe t) /\ (names_public = true -> forall t, In t audits -> safe t)
+  /\ uses = count_reopens h.
 Proof.
-  intros Pk Pd. induction h as [|[[[ev cl] o] r] h IH]; intros s files audits uses H.
+  intros Pk Pd. induction h as [|[ev cl o r|] h IH]; intros s f files audits uses Hf H.
   - cbn in H. injection H as <- <- <-. repeat split; intros; contradiction.
   - cbn [run_terms] in H.
     destruct (db_step N.eqb ev s cl o) as [[s' res] fx].
-    destruct (c_save (fst (c_create kek dek r1)) r (doc_term (kv s'))) as [f u] eqn:Ef.
-    destruct (run_terms (fst (c_create kek dek r1)) s' h) as [[files' audits'] uses'] eqn:Er.
-    injection H as <- <- <-. destruct (IH _ _ _ _ Er) as (Hf & Ha & Hu).
-    assert (Sf : safe f).
-    { replace f with (fst (c_save (fst (c_create kek dek r1)) r (doc_term (kv s')))) by (rewrite Ef; reflexivity).
-      apply saved_file_safe; assumption. }
+    destruct (c_save (fst (c_create kek dek r1)) r (doc_term (kv s'))) as [f' u] eqn:Ef.
+    destruct (run_terms kek (fst (c_create kek dek r1)) s' (if has_save fx then f' else f) h) as [[files' audits'] uses'] eqn:Er.
+    injection H as <- <- <-.
+    assert (Ff : f' = fst (c_save (fst (c_create kek dek r1)) r (doc_term (kv s')))) by (rewrite Ef; reflexivity).
+    assert (Hf' : exists r0 doc, (if has_save fx then f' else f) = fst (c_save (fst (c_create kek dek r1)) r0 doc)).
+    { destruct (has_save fx); [exists r, (doc_term (kv s')); exact Ff|exact Hf]. }
+    destruct (IH _ _ _ _ _ Hf' Er) as (Hfi & Ha & Hu).
+    assert (Sf : safe f') by (rewrite Ff; apply saved_file_safe; assumption).
     assert (U : u = 0) by (cbn in Ef; injection Ef as _ <-; reflexivity).
     repeat split.
     + intros t I. apply in_app_or in I. destruct I as [I|I]; [|auto].
       destruct (has_save fx); [|contradiction]. destruct I as [<-|[<-|[]]]; assumption.
     + intros NP t I. apply in_app_or in I. destruct I as [I|I]; [|auto].
       eapply audit_terms_safe; eassumption.
-    + subst. destruct (has_save fx); reflexivity.
+    + rewrite count_reopens_call. subst. destruct (has_save fx); reflexivity.
+  - cbn [run_terms] in H. destruct Hf as (r0 & doc & ->). rewrite c_open_own in H.
+    destruct (run_terms kek (fst (c_create kek dek r1)) (db_open (kv s)) (fst (c_save (fst (c_create kek dek r1)) r0 doc)) h)
+      as [[files' audits'] uses'] eqn:Er.
+    injection H as <- <- <-.
+    destruct (IH _ _ _ _ _ (ex_intro _ r0 (ex_intro _ doc eq_refl)) Er) as (Hfi & Ha & Hu).
+    repeat split; auto. rewrite count_reopens_reopen. subst. reflexivity.
 Qed.
 
 End Secrecy.
 
-(* C05, first sentence, over all histories: from everything the attacker already holds (safe
-   terms: anything not containing the keys or the secrets in clear) together with EVERY
-   database file and temporary and EVERY audit line written during the history, no secret
-   value can be derived; from the database files and temporaries, no secret name either. *)
-Theorem files_reveal_nothing kek dek r1 h (s : dbstate N) files audits uses :
-  run_terms (fst (c_create kek dek r1)) s h = (files, audits, uses) ->
+(* C05, first sentence, over all histories incl. reopens: from everything the attacker already
+   holds (safe terms: anything not containing the keys or the secrets in clear) together with
+   EVERY database file and temporary and EVERY audit line written during the history, no
+   secret value can be derived; from the database files and temporaries, no secret name either. *)
+Theorem files_reveal_nothing kek dek r1 r0 doc0 h (s : dbstate N) files audits uses :
+  run_terms kek (fst (c_create kek dek r1)) s (fst (c_save (fst (c_create kek dek r1)) r0 doc0)) h = (files, audits, uses) ->
   let prot := fun k => k = kek \/ k = dek in
   (forall (K0 : term -> Prop) v, (forall t, K0 t -> safe prot true t) ->
      ~ derives (fun t => K0 t \/ In t files \/ In t audits) (Sec v))
@@ -110,10 +132,12 @@ Theorem files_reveal_nothing kek dek r1 h (s : dbstate N) files audits uses :
 Proof.
   intros H prot. split.
   - intros K0 v HK. apply value_not_derivable with (protected := prot) (names_public := true).
-    destruct (@run_terms_safe prot true kek dek r1 (or_introl eq_refl) (or_intror eq_refl) h s _ _ _ H) as (Hf & Ha & _).
+    destruct (@run_terms_safe prot true kek dek r1 (or_introl eq_refl) (or_intror eq_refl) h s _ _ _ _
+                (ex_intro _ r0 (ex_intro _ doc0 eq_refl)) H) as (Hf & Ha & _).
     intros t [I|[I|I]]; auto.
   - intros K0 n HK. apply name_not_derivable with (protected := prot) (names_public := false); [reflexivity|].
-    destruct (@run_terms_safe prot false kek dek r1 (or_introl eq_refl) (or_intror eq_refl) h s _ _ _ H) as (Hf & _ & _).
+    destruct (@run_terms_safe prot false kek dek r1 (or_introl eq_refl) (or_intror eq_refl) h s _ _ _ _
+                (ex_intro _ r0 (ex_intro _ doc0 eq_refl)) H) as (Hf & _ & _).
     intros t [I|I]; auto.
 Qed.
 
@@ -129,15 +153,18 @@ Fixpoint value_free (t : term) : Prop :=
 Theorem audit_has_no_values e : value_free (entry_term e).
 Proof. cbn. tauto. Qed.
 
-(* the key-encryption key is consulted exactly once, at creation or opening; no save uses it
-   - and the saved file is a function of the data key and the stored wrapped-key bytes only *)
-Theorem kek_only_at_open kek dek r1 h (s : dbstate N) files audits uses :
-  snd (c_create kek dek r1) = 1 /\ (forall f, snd (c_open kek f) = 1)
-  /\ (run_terms (fst (c_create kek dek r1)) s h = (files, audits, uses) -> uses = 0)
+(* the key-encryption key is consulted once at creation and once at each reopen - by no call,
+   in particular not by the first write after a reopen: along any history of calls and
+   reopens the uses are exactly the number of reopens *)
+Theorem kek_uses_history kek dek r1 r0 doc0 h (s : dbstate N) files audits uses :
+  snd (c_create kek dek r1) = 1
+  /\ (run_terms kek (fst (c_create kek dek r1)) s (fst (c_save (fst (c_create kek dek r1)) r0 doc0)) h = (files, audits, uses) ->
+      uses = count_reopens h)
   /\ (forall c r doc, snd (c_save c r doc) = 0).
 Proof.
   repeat split.
-  intro H. destruct (@run_terms_safe (fun k => k = kek \/ k = dek) true kek dek r1 (or_introl eq_refl) (or_intror eq_refl) h s _ _ _ H) as (_ & _ & U).
+  intro H. destruct (@run_terms_safe (fun k => k = kek \/ k = dek) true kek dek r1 (or_introl eq_refl) (or_intror eq_refl) h s _ _ _ _
+                       (ex_intro _ r0 (ex_intro _ doc0 eq_refl)) H) as (_ & _ & U).
   exact U.
 Qed.
 
@@ -251,6 +278,56 @@ Proof.
   - apply tamper_db_field_kept in E. congruence.
   - apply tamper_db_field_kept in E. congruence.
   - apply tamper_dek_field_kept in E. destruct E as (_ & _ & r' & E). f_equal. eapply G. exact E.
+Qed.
+
+(* ---------------- every open consults the key it is given, and only that ---------------- *)
+(* c_open agrees with open; it is a function of the file and the given key alone *)
+Theorem c_open_result kek f : option_map snd (fst (c_open kek f)) = open kek f \/ fst (c_open kek f) = None.
+Proof.
+  unfold c_open. destruct (wrapper_fields f) as [[[ver dekf] dbf]|]; [|right; reflexivity].
+  destruct ver as [v| | | | | |]; try (right; reflexivity).
+  destruct v as [|[p|p|]]; try (right; reflexivity).
+  destruct dekf as [| | | | | |k ad r m]; try (right; reflexivity).
+  cbn [fst]. destruct (open kek f) as [doc|]; [|right; reflexivity].
+  destruct m; try (right; reflexivity). left. reflexivity.
+Qed.
+
+Theorem open_uses_at_most_once kek f : snd (c_open kek f) <= 1.
+Proof.
+  unfold c_open. destruct (wrapper_fields f) as [[[ver dekf] dbf]|]; cbn [snd]; [|lia].
+  destruct ver as [v| | | | | |]; cbn [snd]; try lia.
+  destruct v as [|[p|p|]]; cbn [snd]; try lia.
+  destruct dekf; cbn [snd]; lia.
+Qed.
+
+(* a successful open consulted its key: no open succeeds on the strength of anything else *)
+Theorem open_success_used_key kek f x : fst (c_open kek f) = Some x -> snd (c_open kek f) = 1.
+Proof.
+  unfold c_open. destruct (wrapper_fields f) as [[[ver dekf] dbf]|]; cbn [fst snd]; [|discriminate].
+  destruct ver as [v| | | | | |]; cbn [fst snd]; try discriminate.
+  destruct v as [|[p|p|]]; cbn [fst snd]; try discriminate.
+  destruct dekf; cbn [fst snd]; try discriminate. reflexivity.
+Qed.
+
+(* an undamaged file: whichever key is given is consulted exactly once; the right one opens it
+   to its document, every other one is refused *)
+Theorem open_valid_file kek dek r1 r2 doc kek' :
+  snd (c_open kek' (file_of kek dek r1 r2 doc)) = 1
+  /\ (kek' = kek -> option_map snd (fst (c_open kek' (file_of kek dek r1 r2 doc))) = Some doc)
+  /\ (kek' <> kek -> fst (c_open kek' (file_of kek dek r1 r2 doc)) = None).
+Proof.
+  split; [reflexivity|]. split.
+  - intros ->. unfold c_open, file_of, wrapper, open. cbn. rewrite !N.eqb_refl. reflexivity.
+  - intro N. destruct (c_open_result kek' (file_of kek dek r1 r2 doc)) as [E|E]; [|exact E].
+    rewrite (foreign_kek_rejected dek r1 r2 doc N) in E.
+    destruct (fst (c_open kek' (file_of kek dek r1 r2 doc))); [discriminate|reflexivity].
+Qed.
+
+Theorem open_uses_ok_spec opened given others :
+  open_uses_ok opened given others = true <->
+  (if opened then given = 1 else given <= 1) /\ others = 0.
+Proof.
+  unfold open_uses_ok. rewrite andb_true_iff, N.eqb_eq. destruct opened; [rewrite N.eqb_eq|rewrite N.leb_le]; tauto.
 Qed.
 
 Theorem tamper_ok_spec {D} (deq : D -> D -> bool) (deq_spec : forall a b, deq a b = true <-> a = b) original o :
